@@ -1,13 +1,13 @@
 // U17 (Kani, BOUNDED): the real crate locustdb-serialization (path dependency, unmodified):
 // event_buffer::ColumnBuffer::push - the client-side row API that builds dense / sparse column representations.
-// Bound: 4 rows per column; every value is NULL, any i64 or any f64.
+// Bound: 3 rows per column; every value is NULL, any i64 or any f64.
 #![allow(dead_code, unused_imports)]
 #[cfg(kani)]
 mod proofs {
     use locustdb_serialization::api::AnyVal;
     use locustdb_serialization::event_buffer::{ColumnBuffer, ColumnData};
 
-    const ROWS: usize = 4;
+    const ROWS: usize = 3;
 
     #[derive(Clone, Copy, PartialEq)]
     enum Cell { Null, I(i64), F(u64) }
